@@ -126,7 +126,19 @@ func c09Run(t rt.TB, c c09Case) {
 	}
 	// (1) the source is subscribed with the subscription context
 	for i, sc := range src.SubCtxs {
-		if sc == nil || sc.Value(rt.SubKey) != id {
+		// documented exception, second part: DefaultIfEmptyWithContext delivers its default with
+		// the explicit context argument; a context-aware loop below it (DoWhile / While
+		// WithContext) continues - and re-subscribes - with the context its callback
+		// was given and returned, which then is that argument
+		viaArg := false
+		if i > 0 && sc != nil && sc.Value(cat.MidMarker("DefaultIfEmpty.arg")) != nil {
+			for _, l := range c.Links {
+				if l.Op == "DefaultIfEmpty" && l.Variant == "WithContext" {
+					viaArg = true
+				}
+			}
+		}
+		if sc == nil || (sc.Value(rt.SubKey) != id && !viaArg) {
 			fail(name, "source-not-subscribed-with-subscription-context", fmt.Sprintf("%s: source subscription #%d got context %v", name, i, sc))
 			return
 		}
